@@ -36,8 +36,8 @@ const (
 	AssetCmst   = 2 // stable asset, collector asset
 	AssetHarbor = 3 // governance token, secondary asset
 	AssetOther  = 4 // unrelated
-	App1        = 1
-	App2        = 2
+	App1        = 2 // a decoy app is registered first: no app id equals an asset / locker / auction id by accident
+	App2        = 3
 )
 
 var Denoms = map[uint64]string{AssetAtom: "uatom", AssetCmst: "ucmst", AssetHarbor: "uharbor", AssetOther: "uother"}
@@ -141,7 +141,8 @@ func NewWorld(c Cfg) *World {
 	ctx := e.Ctx
 	ak := e.App.AssetKeeper
 
-	// apps first (ids 1, 2); the gov token of each app is asset 3
+	// apps first: a decoy (id 1, never configured), then the two real apps (ids 2, 3); the gov token of each app is asset 3
+	must(ak.AddAppRecords(ctx, assettypes.AppData{Name: "decoy", ShortName: "dcy", MinGovDeposit: sdk.NewInt(0), GovTimeInSeconds: 0}))
 	must(ak.AddAppRecords(ctx, assettypes.AppData{Name: "harbor", ShortName: "hbr", MinGovDeposit: sdk.NewInt(0), GovTimeInSeconds: 0,
 		GenesisToken: []assettypes.MintGenesisToken{{AssetId: AssetHarbor, GenesisSupply: sdk.NewInt(100000), IsGovToken: true, Recipient: sim.Addr(Treasury).String()}}}))
 	must(ak.AddAppRecords(ctx, assettypes.AppData{Name: "second", ShortName: "snd", MinGovDeposit: sdk.NewInt(0), GovTimeInSeconds: 0,
